@@ -413,10 +413,6 @@ def run(pid, tier):
                           "complete executions with at most 5 side-effecting nodes; distinct = op list, non-trivial = at least one NoOp decision")
     ck.notes["input_distribution"] = stats
     ck.assumptions = ["CPython recursion limit not modelled", "cyclic chains of references (Reference -> Reference -> ...) are outside C14"]
-    if pid == "C15":
-        return ck.finish(level="other", trusted=["model of Decision.optimize: coq/GraphOps.v (hand-written, tied by stream G-opt)"],
-                         explanation="correspondence of the executable Coq model of optimize() with the implementation plus a bounded sample-set oracle; "
-                                     "the Coq preservation theorem is in progress")
     return ck.finish(trusted=["model of Node.resolve / Decision.optimize: coq/GraphOps.v (hand-written, tied by streams G-res / G-opt)"])
 
 
